@@ -1055,3 +1055,6 @@ def known_match(case, failure, entry):
                                                  "raw-location query returned a different number" in failure.get("kind", "") or
                                                  "raw locations differ" in failure.get("kind", ""))
     return False
+
+
+RULE += (" " + 'Later extensions: one or two GR file (global) attributes; an optional final session that re-attaches a stored vgroup, removes a member (shorter record) and may set its first attribute -- the independent reader rejects records with unexplained trailing bytes.')
